@@ -180,7 +180,7 @@ class Server:
             raise common.InfraError("collect worker died")
         res = json.loads(line)
         if "harness_error" in res or res.get("died"):
-            raise common.InfraError("collect worker child failed: " + str(res.get("harness_error", "died"))[-400:])
+            raise common.InfraError("collect worker child failed: " + str(res.get("harness_error", "died"))[-1400:])
         return res
 
     def close(self):
@@ -1122,7 +1122,12 @@ def shrink_violations(ctx, start, budget=60):
                 break
             used += 1
             probe = common.Ctx(ctx.prop, ctx.tier, ctx.seed)
-            ob = run_cases([cand], 1, servers=servers)[cand["id"]]
+            try:
+                ob = run_cases([cand], 1, servers=servers)[cand["id"]]
+            except Exception:  # noqa: BLE001  (an ill-formed candidate, e.g. a programmatic task whose function was deleted)
+                servers[0].close()
+                servers = [Server(ctx.seed * 16)]
+                continue
             judge(probe, cand, ob)
             if ob.get("exit") in (0, 3) and probe.violations and all(x["finding"] is None for x in probe.violations):
                 case = cand
@@ -1138,7 +1143,14 @@ def shrink_violations(ctx, start, budget=60):
 
 def shrink_candidates(case):
     files = list(case["files"])
+    used = {pt["src"].split(":", 1)[1] for pt in case.get("ptasks") or [] if pt["src"].startswith("proj:")}
+    for i in range(len(case.get("ptasks") or [])):
+        c = json.loads(json.dumps(case))
+        del c["ptasks"][i]
+        yield c
     for f in files:
+        if f in used:
+            continue
         c = json.loads(json.dumps(case))
         del c["files"][f]
         c["paths"] = [p for p in c["paths"] if p != f]
